@@ -465,6 +465,14 @@ def refine_diag(case, log, diag):
 # --------------------------------------------------------------------------------------------
 
 def build_model():
+    # Other checks running concurrently regenerate EVERY coq/Generated file from THEIR repo (VERIF_REPO may point
+    # at a stale or mutated copy) and may overwrite or delete LifecycleGen.v between this check's translator
+    # step and the model build; re-translate our own file from this check's repo right before building.
+    try:
+        from translator import gen
+        gen.regenerate(only=GENERATED)
+    except Exception:  # noqa  (the translator obligation was already recorded by the framework)
+        pass
     return fw.ocaml_model("C20", ["Model/Lifecycle.vo", "Model/Shutdown.vo"])
 
 
